@@ -44,6 +44,14 @@ CLAIMED.update({
     "C13": ("TryFrom<f64|f32> for every bit pattern, split by sign and biased exponent (fraction symbolic): NaN/inf/overflow errors, exact integral results, "
             "half-even rounding to 18 digits with normalisation; digit loop with a proved invariant cut per iteration; no panic path.", "2 C13"),
 })
+CLAIMED.update({
+    "C17": ("(a) every by-reference / compound-assignment impl in the MIR (all 9 integer types, all operations) is shown to call the by-value impl once with the "
+            "dereferenced operands and pass its result through; (b) integer-operand impls vs. the Decimal/Decimal impl on Decimal::from(i): both executed "
+            "symbolically on the same inputs, every pair of paths must agree.", "2 C17"),
+    "C20": ("the dev compilation and the unchecked / packed compilations of the same source are executed symbolically on the same inputs for every public "
+            "operation; all path pairs must agree on return-vs-panic and on the value (float->Decimal: the other compilation is checked against the C13 spec); "
+            "counterexamples are replayed on the dev and release native builds. Known findings: operators that rely on rustc's overflow checks.", "2 C20"),
+})
 NA = {}
 
 def main():
